@@ -16,6 +16,13 @@ claim("C11", "property-based testing of generated handler programs against recor
       "deliveries are derived from the program alone. Exploration: ~100k programs per quick run, millions plus coverage-guided fuzzing in thorough.",
       TRUST + " WriteState never fails (the error path is not part of the statement).", engine="handler-program")
 
+claim("C08", "exhaustive enumeration of the finite requirement/session/mode/storage table x rapid-generated paths and queries, against a reference decision function and a redirect round-trip oracle; native fuzz on path/query",
+      "All 6912 rows of session-user x halfauth x twofactor x requirement-bits x refusal x mountPathed x Mount x storage-outcome x form/JSON are run for every generated "
+      "(escaped path, raw query) pair, through Middleware2/MountedMiddleware2 and the deprecated boolean constructors. Oracle: a reference decision written from the statement "
+      "(run / exact refusal / 500) and a round trip on the redirect: parse Location, decode redir, parse it as a URL reference, compare path and raw query with the request. "
+      "The finite part is exhaustive; strings are explored (hundreds per quick run, tens of thousands plus fuzzing in thorough).",
+      TRUST + " net/url parsing is the arbiter of where a redir value 'returns to'.", engine="table+strings")
+
 NOT_YET = "check not built yet in this round (claimed in DESIGN.md; will be claimed once its check is committed)"
 
 def main():
@@ -51,6 +58,7 @@ def main():
         "engines": [
             {"name": "world-machine", "path": "/verif/props/engine_test.go", "kind_free_text": "rapid-generated op histories interpreted against a full application World (harness/) with per-property monitors",
              "serves_properties": sorted(k for k, v in C.items() if v["engine"] == "world-machine")},
+            {"name": "table+strings", "path": "/verif/props/c08_test.go", "kind_free_text": "exhaustive finite table crossed with rapid-generated strings", "serves_properties": ["C08"]},
             {"name": "handler-program", "path": "/verif/props/c11_test.go", "kind_free_text": "rapid-generated handler programs against recording stores", "serves_properties": ["C11"]},
         ],
         "checks": checks,
